@@ -104,6 +104,7 @@ func genC29Node(r *simrt.Rand, tier string) *simrt.Plan {
 }
 
 func execC29Node(c *simrt.Ctx) {
+	slowShardAnnounce = false
 	h := &c29Node{c: c}
 	ctx := context.Background()
 	c.S.SetEager(true)
@@ -294,7 +295,7 @@ func (h *c29Node) apply(ci int, op simrt.Op, mine *[]*c29Write) {
 		if op.K == "count" {
 			n, _ := res.(uint64)
 			if int(n) < len(must) || int(n) > len(may) {
-				h.c.Fail("stale-read", "client %d: %s = %d, but %d bits were acknowledged before the request and %d had been requested before the answer", ci, q, n, len(must), len(may))
+				h.c.Fail(c29StaleClass(), "client %d: %s = %d, but %d bits were acknowledged before the request and %d had been requested before the answer", ci, q, n, len(must), len(may))
 			}
 			h.c.Probe("node-reads")
 			return
@@ -314,7 +315,7 @@ func (h *c29Node) apply(ci int, op simrt.Op, mine *[]*c29Write) {
 		}
 		for col := range must {
 			if !got[col] {
-				h.c.Fail("stale-read", "client %d: %s lacks column %d, whose write was acknowledged before the request was sent (answer: %v)", ci, q, col, r.Columns())
+				h.c.Fail(c29StaleClass(), "client %d: %s lacks column %d, whose write was acknowledged before the request was sent (answer: %v)", ci, q, col, r.Columns())
 				return
 			}
 		}
@@ -336,7 +337,7 @@ func (h *c29Node) apply(ci int, op simrt.Op, mine *[]*c29Write) {
 		}
 		for _, w := range h.writes {
 			if w.field == f && w.ret != 0 && w.ret < inv && !w.cleared && !got[w.row] {
-				h.c.Fail("stale-read", "client %d: %s = %v lacks row %d, set and acknowledged before the request", ci, q, ids.Rows, w.row)
+				h.c.Fail(c29StaleClass(), "client %d: %s = %v lacks row %d, set and acknowledged before the request", ci, q, ids.Rows, w.row)
 				return
 			}
 		}
@@ -443,4 +444,13 @@ func (h *c29Node) final() {
 		}
 	}
 	h.c.Probe("node-final-checked")
+}
+
+// c29StaleClass: a stale read in a run where a shard's announcement outlasted the 50 ms its
+// creator waits for it is the recorded consequence of that bound (known finding C29-F1).
+func c29StaleClass() string {
+	if slowShardAnnounce {
+		return "stale-read-slow-announce"
+	}
+	return "stale-read"
 }
